@@ -53,7 +53,7 @@ def showErr : ErrClass → String
   | .refused => "refused" | .proto => "proto" | .feat => "feat"
 
 def showOutcome : Outcome → String
-  | .done st t => s!"done.{st.toNat}.{showBool t}"
+  | .done st t h => s!"done.{st.toNat}.{showBool t}.{showBool h}"
   | .stop (.err e) => "err." ++ showErr e
   | .stop .fuel => "model:fuel"
   | .stop .oracle => "model:oracle-exhausted"
